@@ -405,7 +405,7 @@ func c04HalfOpenPermits(c *Ctx) {
 	ix := BuildIndex(c.P)
 	allowed := []string{"circuitbreaker.(*halfOpenState).tryAcquirePermit", "circuitbreaker.(*halfOpenState).checkThresholdAndReleasePermit", "circuitbreaker.newHalfOpenState"}
 	okW := true
-	for _, w := range ix.Writers(FieldRef{Type: "halfOpenState", Pkg: "circuitbreaker", Field: actualField("circuitbreaker", "halfOpenState", "permittedExecutions")}) {
+	for _, w := range ix.Writers(FieldRef{Type: "halfOpenState", Pkg: "circuitbreaker", Field: "permittedExecutions"}) {
 		if !ix.WithinNames(w, allowed...) {
 			okW = false
 			c.Fail("circuitbreaker.halfOpenState.permittedExecutions#writers", c.P.FuncPos(w), "the trial permit counter is written by "+c.fn(w), "")
